@@ -20,7 +20,7 @@ def _clear_caches(ns_):
 PROPERTY = "C09"
 PL_OPS = ["evaluate", "evaluate_propositions", "assume", "reduce", "negate", "errors", "flatten", "to_json", "to_text", "to_short", "to_ge_polyhedron", "solve"]
 CFG_OPS = ["select", "add", "default_prios", "leafs", "ge_polyhedron", "to_json", "evaluate"]
-REGIONS = ["prefixed-subproposition", "subclass-leaves", "history:add", "history:assume", "history:negate", "history:reduce", "history-cfg", "history-plog"] + ["op:" + o for o in PL_OPS] + ["cfg-op:" + o for o in CFG_OPS] + ["interpretation-names-compound-id", "interpretation-names-top-id", "cache-key-equal-possible"]
+REGIONS = ["repeat-evaluate", "repeat-with-equal-hash-different-value", "prefixed-subproposition", "subclass-leaves", "history:add", "history:assume", "history:negate", "history:reduce", "history-cfg", "history-plog"] + ["op:" + o for o in PL_OPS] + ["cfg-op:" + o for o in CFG_OPS] + ["interpretation-names-compound-id", "interpretation-names-top-id", "cache-key-equal-possible"]
 BOUNDS = ("one call of each public operation from a freshly built model (PL family, <=7 compounds) or configurator (CFG family), with symbolic thresholds/signs/boxes "
           "where the operation does not cross the Rust encoder, and symbolic arguments: dictionaries over ALL ids (leaves, sub-propositions, the top id) with symbolic "
           "presence flags and values; a deep snapshot (class, id, generated flag, bounds, value, sign, prio, default, children) is compared before/after. "
@@ -60,6 +60,15 @@ def instantiations(tier, seed):
             out.append({"part": "frame", "kind_": "cfg", "model": c, "op": op})
     for c in cfg.curated()[:3] + [cfg.SC(F.AL(1, F.V("x", -3, 3), F.V("y", -3, 3), id="R", sign=1))]:
         out.append({"part": "cache", "model": c})
+    # the same query twice on one object with two different interpretations (hash values decided: hash(-1) == hash(-2) is represented)
+    # thresholds chosen so that the values -1 and -2 (equal CPython hashes) give different truth values
+    rep_models = [F.AL(-1, F.V("n", -5, 5), F.a(), id="A", sign=1), F.AM(-2, F.V("n", -5, 5), F.a(), id="A"),
+                  F.N("Any", F.AL(-1, F.V("n", -5, 5), id="B", sign=1), F.a(), id="A"),
+                  ] + ([F.AL(1, F.V("n", -5, 5), F.V("k", -3, 3), id="A", sign=-1)] if tier == "thorough" else [])
+    for m in rep_models:
+        for op in ("evaluate", "evaluate_propositions"):
+            for form in ("int", "tuple"):
+                out.append({"part": "repeat", "kind_": "plog", "model": m, "op": op, "form": form})
     # call histories of length 3: warm-up queries on the object, then a deriving operation, then queries on the derived object and on the original
     hist_cfgs = cfg.cfg_family(tier, seed, n_quick=2, n_thorough=40)
     for k, c in enumerate(hist_cfgs if tier == "thorough" else hist_cfgs[:5] + hist_cfgs[-4:]):
@@ -230,12 +239,66 @@ def _history(ns, spec, run):
     return run.result(st)
 
 
+def _repeat(ns, spec, run):
+    """evaluate(I1) then evaluate(I2) on ONE object; the second answer must be the truth function at I2.
+    Hash values are modelled in *decided* mode with the small integers pre-registered, so that two different values with
+    equal CPython hashes (-1 and -2) really hash alike inside the code under test."""
+    model_spec, op = spec["model"], spec["op"]
+    leaves = pl.leaves(model_spec)
+
+    def fn(ctx):
+        ctx.preregister([-2, -1, 0, 1, 2])
+        m = pl.build(ns, model_spec, {})
+        x1 = {l: (ctx.int("x1_" + l, lo, hi) if (lo, hi) != (0, 1) else 0) for l, (lo, hi) in leaves.items()}
+        x2 = {l: (ctx.int("x2_" + l, lo, hi) if (lo, hi) != (0, 1) else 0) for l, (lo, hi) in leaves.items()}
+        z2 = {l: S.term(v) for l, v in x2.items()}
+        ref = pl.obj_sem(ns, pl.build(ns, model_spec, {}), z2)
+
+        def interp(x):
+            return {l: (v if spec["form"] == "int" or not isinstance(v, S.SymInt) else (v, v)) for l, v in x.items()}
+        err = r2 = None
+        S.HASH_MODE = "decided"
+        try:
+            f = getattr(m, op)
+            f(interp(x1))
+            out = f(interp(x2))
+            r2 = out[m.id] if op == "evaluate_propositions" else out
+        except Exception as e:    # noqa
+            err = "%s: %s" % (type(e).__name__, e)
+        finally:
+            S.HASH_MODE = "structural"
+        return dict(x1=x1, x2=x2, ref=ref, r2=r2, err=err)
+
+    def on_path(ctx, d):
+        run.path(ctx)
+        run.region("repeat-evaluate")
+
+        def conc(mm):
+            return {"env": {}, "x1": {k: (S.model_int(mm, v) if isinstance(v, S.SymInt) else v) for k, v in d["x1"].items()},
+                    "x2": {k: (S.model_int(mm, v) if isinstance(v, S.SymInt) else v) for k, v in d["x2"].items()}}
+        if d["err"] is not None:
+            run.obligation(ctx, "raises", True, conc, extra=d["err"])
+            return
+        syms = [(a, b) for a, b in zip(d["x1"].values(), d["x2"].values()) if isinstance(a, S.SymInt)]
+        if syms and "repeat-with-equal-hash-different-value" not in run.regions:
+            if ctx.query(z3.Or([z3.And(a.e == -1, b.e == -2) for a, b in syms] + [z3.And(a.e == -2, b.e == -1) for a, b in syms]))[0] == "sat":
+                run.region("repeat-with-equal-hash-different-value")
+        r2 = d["r2"]
+        run.obligation(ctx, "second-call-answers-for-its-own-interpretation", z3.Or(S.term(r2.lower) != d["ref"], S.term(r2.upper) != d["ref"]), conc)
+        run.sample({"model": pl.show(model_spec), "op": op, "path_condition": [str(z3.simplify(c)) for c in ctx.pc][:6]})
+
+    st = S.explore(fn, on_path, max_paths=5000, wall=600)
+    return run.result(st)
+
+
 def run_inst(spec, run):
     ns = E.load_repo()
     if spec["part"] == "cache":
         return _cache(ns, spec, run)
     if spec["part"] == "history":
         return _history(ns, spec, run)
+    if spec["part"] == "repeat":
+        return _repeat(ns, spec, run)
     mu = spec.get("mutant")
     model_spec, op = spec["model"], spec["op"]
     iscfg = spec["kind_"] == "cfg"
